@@ -62,11 +62,11 @@ Definition pb_payload_len_elem (f : field) (v : sval) : res Z :=
 
 Definition pb_payload_len (f : field) (count : Z) (l : list sval) : res Z :=
   match f_type f with
-  | TSfixed32 | TFixed32 | TFloat => Ok (u32 (u32 count * 4))
-  | TSfixed64 | TFixed64 | TDouble => Ok (u32 (u32 count * 8))
+  | TSfixed32 | TFixed32 | TFloat => Ok (u32 (count * 4))
+  | TSfixed64 | TFixed64 | TDouble => Ok (u32 (count * 8))
   | TBool => Ok (u32 count)
   | TString | TBytes | TMessage => Err EAssert
-  | _ => sumM_n (pb_payload_len_elem f) l (Z.to_nat (u32 count))
+  | _ => sumM_n (pb_payload_len_elem f) l (Z.to_nat count)
   end.
 
 (* pack_buffer_packed_payload: chunks and returned length *)
@@ -80,20 +80,20 @@ Definition pb_payload (f : field) (count : Z) (l : list sval) : res (list (list 
   match f_type f with
   | TSfixed32 | TFixed32 | TFloat | TSfixed64 | TFixed64 | TDouble =>
       (* little-endian host: one append of the raw array *)
-      do cs <- concatM_n (pb_packed_elem f) l (Z.to_nat (u32 count));
+      do cs <- concatM_n (pb_packed_elem f) l (Z.to_nat count);
       let raw := concat cs in
       Ok ([raw], zlen raw)
   | TBool =>
-      do cs <- concatM_n (pb_packed_elem f) l (Z.to_nat (u32 count));
+      do cs <- concatM_n (pb_packed_elem f) l (Z.to_nat count);
       Ok (cs, u32 count)
   | TString | TBytes | TMessage => Err EAssert
   | _ =>
-      do cs <- concatM_n (pb_packed_elem f) l (Z.to_nat (u32 count));
+      do cs <- concatM_n (pb_packed_elem f) l (Z.to_nat count);
       Ok (cs, zlen (concat cs))
   end.
 
 Definition pb_repeated rec (f : field) (count : Z) (arr : option (list sval)) : res (list (list Z)) :=
-  let count := u32 count in            (* the parameter is 'unsigned count' *)
+  (* the parameter is 'unsigned count': counts of 2^32 elements and more are outside the model *)
   if count =? 0 then Ok []
   else if f_packed f then
     match arr with
